@@ -272,11 +272,33 @@ func runC09(c c09Case) ev.Outcome {
 		}
 		return "stalled"
 	}
+	stalled := false
 	if tamper == nil {
-		select {
-		case <-done:
-		case <-time.After(limit):
-			timedOut = true
+		// done, or the global limit, or a stall: no party call active and none started during 400 consecutive polls
+		// (each poll sleeps 10 ms, so routers and deliveries had 400 chances to run): nothing can happen any more
+		deadline := time.Now().Add(limit)
+		idle := 0
+	wait:
+		for {
+			select {
+			case <-done:
+				break wait
+			default:
+			}
+			if time.Now().After(deadline) {
+				timedOut = true
+				break
+			}
+			if atomic.LoadInt64(&active) == 0 {
+				idle++
+			} else {
+				idle = 0
+			}
+			if idle >= 400 {
+				timedOut, stalled = true, true
+				break
+			}
+			time.Sleep(10 * time.Millisecond)
 		}
 	} else {
 		// wait until every party that errs or finishes in the sequential reference has done so (or the limit)
@@ -339,7 +361,11 @@ func runC09(c c09Case) ev.Outcome {
 	out.Nontrivial = overl > 0
 	out.Label += fmt.Sprintf(" overlapped-parties>0=%v", overl > 0)
 	if timedOut {
-		return fail("concurrent-hang", "not every party finished within %v under concurrent delivery (%d of %d finished)", limit, atomic.LoadInt32(&finishedNodes), total)
+		how := fmt.Sprintf("within %v", limit)
+		if stalled {
+			how = "and nothing is left to deliver or run (stall)"
+		}
+		return fail("concurrent-hang", "not every party finished %s under concurrent delivery (%d of %d finished)", how, atomic.LoadInt32(&finishedNodes), total)
 	}
 	for i := range st {
 		if r := atomic.LoadInt32(&st[i].results); r != 1 {
